@@ -13,6 +13,46 @@ mod obs;
 mod seqdrv;
 mod util;
 
+/// Allocator of the harness: the system allocator, plus (while armed) a log of every deallocation
+/// (address, size).  C20 uses it to see whether memory that a queued io_uring write still points into
+/// is returned to the allocator.
+pub mod freelog {
+    use std::alloc::{GlobalAlloc, Layout, System};
+    use std::sync::atomic::{AtomicBool, AtomicUsize, Ordering};
+    pub const CAP: usize = 1 << 16;
+    pub static ON: AtomicBool = AtomicBool::new(false);
+    pub static N: AtomicUsize = AtomicUsize::new(0);
+    #[allow(clippy::declare_interior_mutable_const)]
+    const Z: AtomicUsize = AtomicUsize::new(0);
+    pub static PTR: [AtomicUsize; CAP] = [Z; CAP];
+    pub static LEN: [AtomicUsize; CAP] = [Z; CAP];
+    pub struct Tracking;
+    unsafe impl GlobalAlloc for Tracking {
+        unsafe fn alloc(&self, l: Layout) -> *mut u8 { unsafe { System.alloc(l) } }
+        unsafe fn alloc_zeroed(&self, l: Layout) -> *mut u8 { unsafe { System.alloc_zeroed(l) } }
+        unsafe fn realloc(&self, p: *mut u8, l: Layout, n: usize) -> *mut u8 {
+            let q = unsafe { System.realloc(p, l, n) };
+            if ON.load(Ordering::Relaxed) && q != p { note(p as usize, l.size()); }
+            q
+        }
+        unsafe fn dealloc(&self, p: *mut u8, l: Layout) {
+            if ON.load(Ordering::Relaxed) { note(p as usize, l.size()); }
+            unsafe { System.dealloc(p, l) }
+        }
+    }
+    fn note(p: usize, n: usize) {
+        let i = N.fetch_add(1, Ordering::SeqCst);
+        if i < CAP {
+            PTR[i].store(p, Ordering::SeqCst);
+            LEN[i].store(n, Ordering::SeqCst);
+        }
+    }
+    pub fn mark() -> usize { N.load(Ordering::SeqCst).min(CAP) }
+}
+
+#[global_allocator]
+static ALLOC: freelog::Tracking = freelog::Tracking;
+
 fn main() {
     let args: Vec<String> = std::env::args().collect();
     if args.len() < 2 {
